@@ -671,6 +671,11 @@ func (ex *Exec) backEdge(from, to *ssa.BasicBlock, cond string) {
 	li := ex.loopInfo[to]
 	lc := li.lc
 	st := ex.curSt
+	// an iteration that provably never completes means the assumptions made inside the body (invariants, callee
+	// postconditions) contradict each other: every inv-keep obligation of this edge would hold vacuously
+	if cond != "false" { // "false": the edge follows a call that does not return (log.Panicln in a default case)
+		ex.vacuity(fmt.Sprintf("loop#%d back edge reachable", li.ordinal), cond, firstPos(to))
+	}
 	// soundness check of the havoc set: any heap whose version changed in the body must have been havocked at the head
 	_, heaps, all := ex.loopMods(li)
 	if !all {
@@ -982,7 +987,12 @@ func (eng *Engine) VerifyFunc(fn *ssa.Function, fc *FuncContract) (em *Emitter, 
 		ex.params[p.Name()] = v
 	}
 	for _, fv := range fn.FreeVars {
-		ex.vals[fv] = ex.freshVal("fv_"+fv.Name(), fv.Type())
+		v := ex.freshVal("fv_"+fv.Name(), fv.Type())
+		if _, isPtr := fv.Type().Underlying().(*types.Pointer); isPtr && v.E != "" {
+			// a free variable of a function literal is the address of a captured variable: never nil, allocated
+			em.emit(fmt.Sprintf("(assert (and (> %s 0) (< %s %s)))", v.E, v.E, ex.top0))
+		}
+		ex.vals[fv] = v
 	}
 	for _, g := range eng.CS.Ghosts {
 		if g.Pkg != "" && g.Pkg != fn.Pkg.Pkg.Path() {
